@@ -80,3 +80,16 @@ Print Assumptions C10_mismatched_section_is_rejected.
 Print Assumptions C10_template_text_is_tokenized_as_its_lexemes.
 Print Assumptions C10_template_text_is_parsed_as_its_tokens.
 Print Assumptions C10_template_text_parses_to_its_tree.
+
+(* State space: the objects this property's model stands for have exactly the fields the model accounts for (StateSpace.v;
+   gen/StateSpaceGen.v is regenerated from the Go sources on every run). A new field - a cache, a memo, a counter - is state
+   the model does not have, so the theorems above would no longer be about the object. *)
+From Coq Require Import String.
+Require Import StateSpaceGen StateSpace.
+Open Scope string_scope.
+Theorem C10_state_space :
+  fields_of "mustache.MustacheTemplate" = fields ["defaultVariables"; "parser"; "autoVariables"] /\
+  fields_of "mustache/parsers.MustacheParser" = fields ["tokenizer"; "template"; "originalTokens"; "initialTokens"; "currentTokenIndex"; "variableNames"; "resultTokens"] /\
+  fields_of "mustache/tokenizers.MustacheTokenizer" = fields ["embedded *tokenizers.AbstractTokenizer"; "special"; "specialState"].
+Proof. vm_compute. repeat split; reflexivity. Qed.
+Print Assumptions C10_state_space.
